@@ -131,4 +131,36 @@ def run(ck):
             ck.violation("emitter", "totals", line, tot, "%d %d" % (tw, te))
     ck.samples.append({"stream": "emitter", "case": lines[0][:300], "impl": o[0][:300], "model": m[0][:200]})
     ck.extra["rule"] = "%d random combinations of 13 diagnostic-producing templates x 12 payload strings x 8 file names (1-3 files, sometimes listed twice) x 7 -A option sets, each in json and human format; distinct by case text" % n
-    ck.partial.append("colours enabled, and the summary lines written by emit_totals to stdout, are exercised through the real binary in the driver checks (C07); a generator's own stderr text is copied to slicec's stderr in front of the JSON lines (noted under C18)")
+    # colours: with colours on (forced through the environment) the text is the plain text with escape sequences added; JSON never has any
+    import os, re
+    sample = [i for i in range(len(cases))][:(400 if ck.tier == "quick" else 4000)]
+    clines = ["emit %s+color %s %s" % (cases[i][0], cases[i][1], " ".join("%s:%s" % (hx(nm), hx(t)) for nm, t in cases[i][2])) for i in sample]
+    oc = core.run_impl("emit", clines, chunk=100, timeout=120, workers=8, env=dict(os.environ, CLICOLOR_FORCE="1"))
+    ck.stream("colours", description="the same programs with colours left enabled (console forced to use them): the human-readable output with the escape sequences removed is the colourless output byte for byte, "
+              "and does contain escape sequences when anything is shown; the JSON output contains none")
+    ansi = re.compile(rb"\x1b\[[0-9;]*m")
+    coloured = 0
+    for i, line, oo in zip(sample, clines, oc):
+        fmt, opts, files = cases[i]
+        ck.count("colours", line, kind=fmt)
+        parts, plain_parts = oo.split(" || "), o[i].split(" || ")
+        if len(parts) != 3 or len(plain_parts) != 3:
+            if len(parts) != 3:
+                ck.violation("colours", "crash", line, "output", oo[:200])
+            continue
+        out = bytes.fromhex(parts[0]) if parts[0] != "-" else b""
+        plain = bytes.fromhex(plain_parts[0]) if plain_parts[0] != "-" else b""
+        if any("\x1b" in t for _, t in files):
+            continue
+        if fmt == "json":
+            if b"\x1b" in out or out != plain:
+                ck.violation("colours", "json-depends-on-colours", line, "the same JSON lines, no escape sequence", repr(out[:200]))
+            continue
+        if ansi.sub(b"", out) != plain:
+            ck.violation("colours", "coloured-text-differs", line, repr(plain[:300]), repr(ansi.sub(b"", out)[:300]))
+        elif plain and b"\x1b" in out:
+            coloured += 1
+    ck.extra["coloured_outputs"] = coloured
+    if coloured < len(sample) // 10:
+        ck.violation("colours", "colours-not-exercised", "%d of %d outputs carried escape sequences" % (coloured, len(sample)), "colours forced on", str(coloured), kind="correspondence")
+    ck.partial.append("the summary lines written by emit_totals to stdout are exercised through the real binary in the driver checks (C07); a generator's own stderr text is copied to slicec's stderr in front of the JSON lines (noted under C18)")
